@@ -141,6 +141,9 @@ MUTANTS = [
     ("hmm-fwd-wrong-axis", ["C37"], HMM, r"prev.reshape\(-1, 1\) \+ transition_n,\n                axis=0,", "prev + transition_n,\n                axis=-1,"),
     ("hmm-density-transpose", ["C37"], HMM, r"\[latent, obs\]", "[obs, latent]"),
     ("hmc-normal-score-square-outside", ["C28"], HMC, r"score = tfd.Normal\(0.0, 1.0\).log_prob\(v\)\n    if score.shape:\n        return jnp.sum\(score\)\n    else:\n        return score", "return -0.5 * (jnp.sum(v) ** 2 + jnp.size(v) * jnp.log(2 * jnp.pi))"),
+    ("static-visit-raw-append", ["C22"], STATIC, r"self.visited.append\(path\)", "self.visited.append(addr)"),
+    ("switch-retdiffs-from-key", ["C13", "C05"], SW, r"retdiffs = list\(rd for _, _, rd, _ in rets\)", "retdiffs = list(key for _, _, rd, _ in rets)"),
+    ("static-compat-len", ["C34"], STATIC, r"and len\(address\) == 1", "and len(address) != 1"),
     ("subtrace-fold-order", ["C34", "C38"], GF, r"lambda tr, addr: tr.get_inner_trace\(addr\), addresses, self", "lambda tr, addr: tr.get_inner_trace(addr), reversed(addresses), self"),
 ]
 
